@@ -448,7 +448,7 @@ class FnEmitter:
                     # inference and any panic site inside an argument expression
                     if not spans:
                         return '()'
-                    return '{ ' + ' '.join('let _ = &(%s);' % T(x, y) for (x, y) in spans) + ' }'
+                    return 'vx_log((' + ' '.join('&(%s),' % T(x, y) for (x, y) in spans) + '))'
                 edits.append(Edit(t.start, toks[c].end, func=mk, rule='D-b'))
                 self.fire('D-b', t.text + '!')
 
